@@ -179,10 +179,11 @@ def execute(case):
     faults = {"write_error": 0, "restart": 0}
     probes = {"unseen_ngram_in_query": 0, "empty_query": 0, "repeated_token_query": 0,
               "lopsided_posterior": 0, "refit_same_object": 0, "file_replaced_by_rename": 0, "load_of_torn_file": 0, "save_fault_not_reached": 0, "load_compared": 0,
-              "model_intact_after_failed_save": 0, "corpus_candidates": 0}
+              "model_intact_after_failed_save": 0, "corpus_candidates": 0, "huge_alphabet_fit": 0}
     n_eval = 0
     store = SimStore(faults)
     pipes, refs, saved = {}, {}, {}
+    corpora = {}
     scorers = {}
     docs_b, pps_b = case["battery_docs"], case["battery_pps"]
 
@@ -195,7 +196,12 @@ def execute(case):
         for i, op in enumerate(case["ops"]):
             k = op["op"]
             if k == "FIT":
-                X, y = op["X"], op["y"]
+                if "gen" in op:
+                    X, y = _gen_corpus(op["gen"])
+                    probes["huge_alphabet_fit"] += 1
+                else:
+                    X, y = op["X"], op["y"]
+                corpora[op["p"]] = X
                 if op.get("via", "train") == "train":
                     pl = nbs.train_naive_bayes(X, [v == 1 for v in y])
                 else:
@@ -232,7 +238,13 @@ def execute(case):
                 if op["p"] not in pipes:
                     continue
                 pl, ref = pipes[op["p"]], refs[op["p"]]
-                doc = op["doc"]
+                if "doc_slice" in op:
+                    # a stretch of a training document (all its n-grams are known)
+                    di, st, ln = op["doc_slice"]
+                    Xp = corpora.get(op["p"]) or [[]]
+                    doc = Xp[di % len(Xp)][st:st + ln]
+                else:
+                    doc = op["doc"]
                 n_eval += 1
                 try:
                     got = pl.predict_log_proba([doc])[0]
@@ -373,6 +385,8 @@ def execute(case):
                 src = op.get("src")
                 if src in refs:
                     refs[op["p"]] = refs[src]
+                if src in corpora:
+                    corpora[op["p"]] = corpora[src]
             elif k == "RESTART":
                 if op["p"] not in pipes:
                     continue
@@ -432,10 +446,36 @@ def execute(case):
             "sample": {"ops": [{k: (v if k not in ("X", "y") else "<%d items>" % len(v))
                                 for k, v in o.items()} for o in case["ops"][:10]],
                        "first_fit": next(({"X": o["X"][:4], "y": o["y"][:4]} for o in case["ops"]
-                                          if o["op"] == "FIT"), None)}}
+                                          if o["op"] == "FIT" and "X" in o), None)}}
 
 
 # --------------------------------------------------------------------------
+def _gen_corpus(spec):
+    """A corpus too big to be written into the case: generated from its spec. kind "zipf": a few
+    frequent tokens alternating with a very large tail alphabet (every tail token occurs), i.e.
+    more distinct tokens than fit into 16 bits and many bigrams (frequent, rare)."""
+    import random as _random
+    r = _random.Random(spec["seed"])
+    F = ["f%d" % i for i in range(spec["freq"])]
+    T = ["t%05d" % i for i in range(spec["tail"])]
+    order = T[:]
+    r.shuffle(order)
+    X, y, k = [], [], 0
+    for _ in range(spec["docs"]):
+        doc = []
+        for _j in range(spec["per_doc"]):
+            doc.append(r.choice(F))
+            if k < len(order):
+                doc.append(order[k])
+                k += 1
+            else:
+                doc.append(r.choice(T))
+        X.append(doc)
+        y.append(1 if r.random() < 0.5 else -1)
+    y[0], y[1] = 1, -1
+    return X, y
+
+
 def _corpus(rng):
     if rng.random() < 0.2:
         # lopsided: nearly disjoint class vocabularies and many documents, so that long
@@ -584,6 +624,26 @@ def plan(prop, tier, seed):
         bd = [_doc(rng, any_alpha) for _ in range(5)] + [[]]
         bp = [_pp(rng, any_alpha) for _ in range(3)]
         cases.append({"ops": ops, "battery_docs": bd, "battery_pps": [list(x) for x in bp]})
+    # more distinct tokens than fit into 16 bits (ids, offsets, packed keys ...)
+    for i in range(2 if quick else 16):
+        rng = core.stream(core.derive_seed(base, "huge", i), "workload")
+        spec = {"kind": "zipf", "seed": rng.randrange(1 << 30), "freq": rng.choice([16, 32, 48, 64]),
+                "tail": rng.choice([66000, 70000, 75000]) if i % 2 == 0 else rng.choice([300, 5000, 40000]),
+                "docs": 1500, "per_doc": rng.choice([50, 70])}
+        ops = [{"op": "FIT", "p": 0, "gen": spec, "via": rng.choice(["train", "pipeline"]),
+                "alpha": 1.0}]
+        for _ in range(40):
+            ops.append({"op": "PREDICT", "p": 0,
+                        "doc_slice": [rng.randrange(1500), rng.randrange(0, 60),
+                                      rng.choice([2, 3, 10, 40, 100])]})
+        ops += [{"op": "SAVE", "p": 0, "name": "a", "fail_at": None},
+                {"op": "LOAD", "name": "a", "p": 1, "src": 0}]
+        for _ in range(10):
+            ops.append({"op": "PREDICT", "p": 1,
+                        "doc_slice": [rng.randrange(1500), rng.randrange(0, 60),
+                                      rng.choice([3, 10, 40])]})
+        cases.append({"ops": ops, "battery_docs": [["f0", "t00001", "f1"], []],
+                      "battery_pps": []})
     # shipped model: candidate scores re-derived from its stored parameters
     rng = core.stream(base, "corpus")
     for i in range(8 if quick else 120):
